@@ -653,6 +653,15 @@ def run_property(ctx: Ctx, pid: str, design_cfgs: list[str]) -> Outcome:
             "run %s is not a behaviour of Stateful.tla: stuck before line %s %s after %s" % (
                 {k: v for k, v in run["desc"].items() if k != "params"}, rej["line"], rej["next"], rej["context"]),
             {"kind": "run", "desc": run["desc"], "clause": "StatefulTrace", "line": rej["line"]}))
+    # 3e. action-level trace validation of every free-running unit-phase run against Engine.tla's own actions
+    ulevel = action_level_unit(ctx, runs)
+    for rej in ulevel["rejected"][:5]:
+        run = runs[rej["run"]]
+        out.violations.append(Violation(
+            "%s:UnitTrace:%s:%s" % (pid, "invariant" if rej["invariant"] else "no-engine-action-explains-line", variant_of(run["desc"])),
+            "run %s is not a behaviour of Engine.tla: stuck before line %s %s after %s" % (
+                {k: v for k, v in run["desc"].items() if k != "params"}, rej["line"], rej["next"], rej["context"]),
+            {"kind": "run", "desc": run["desc"], "clause": "UnitTrace", "line": rej["line"]}))
     # 4. trace validation
     rejected, accepted, jres = judge(ctx, runs, pid)
     own = 0
@@ -687,6 +696,7 @@ def run_property(ctx: Ctx, pid: str, design_cfgs: list[str]) -> Outcome:
         "design_models": design, "old_designs_refuted": refuted,
         "cli_subprocess_runs": len(cli_runs), "forced_schedules": sinfo, "action_level_traces": {k: v for k, v in alevel.items() if k != "rejected"},
         "action_level_stateful_traces": {k: v for k, v in slevel.items() if k != "rejected"},
+        "action_level_unit_traces": {k: v for k, v in ulevel.items() if k != "rejected"},
         "family_size": len(fam), "base_descriptors": len(plain), "disturbed_runs": len(todo), "faults_fired": fired,
         "accepted": len(accepted), "rejected_own": own, "rejected_foreign": sum(foreign.values()),
         "trace_lines": sum(len(r["lines"]) for r in runs), "judge_states": jres.distinct,
@@ -761,4 +771,27 @@ def selftest(ctx: Ctx, pid: str) -> bool:
     sok = sinfo["runs"] == 4 and rej == {1, 2, 3}
     if not sok:
         print("selftest detail (StatefulTrace):", {k: v for k, v in sinfo.items() if k != "rejected"}, sorted(rej))
-    return ok and sok
+    # the same for the unit phases: a recorded two-worker run is a behaviour of Engine.tla; without one queue put, with a
+    # scenario status changed, or with a worker exit moved before its last put it is not
+    ugood = _run({"ops": ["ok", "bad", "ok"], "links": False, "phases": ["coverage", "fuzzing"], "workers": 2, "max_failures": 0, "cof": False,
+                  "unique": False, "seed": 5, "max_examples": 2, "shape": "plain"})
+    uvars = [ugood]
+    for kind in ("drop-put", "status", "early-exit"):
+        v = copy.deepcopy(ugood)
+        if kind == "drop-put":
+            i = next(i for i, ln in enumerate(v["lines"]) if ln["e"] == "QPUT" and ln["k"] == "ScF")
+            del v["lines"][i]
+        elif kind == "status":
+            ln = next(ln for ln in v["lines"] if ln["e"] == "QPUT" and ln["k"] == "ScF" and ln["st"] == "failure")
+            ln["st"] = "success"
+        else:
+            i = max(i for i, ln in enumerate(v["lines"]) if ln["e"] == "WEXIT")
+            j = max(k for k, ln in enumerate(v["lines"][:i]) if ln["e"] == "QPUT" and ln["thr"] == v["lines"][i]["thr"])
+            v["lines"].insert(j, v["lines"].pop(i))
+        uvars.append(v)
+    uinfo = action_level_unit(ctx, uvars)
+    urej = {r["run"] for r in uinfo["rejected"]}
+    uok = uinfo["runs"] == 4 and urej == {1, 2, 3}
+    if not uok:
+        print("selftest detail (UnitTrace):", {k: v for k, v in uinfo.items() if k != "rejected"}, sorted(urej))
+    return ok and sok and uok
